@@ -128,13 +128,13 @@ func (x *XRefParser) FindXRef() (int64, error) {
 
 	// Parse the offset after startxref
 	afterStartXRef := content[idx+len("startxref"):]
-	lines := strings.Split(afterStartXRef, "\n")
-	if len(lines) < 2 {
+	// The offset is on the next line; a line ends with LF, CR LF or a lone CR
+	fields := strings.Fields(afterStartXRef)
+	if len(fields) < 1 {
 		return 0, fmt.Errorf("invalid startxref format")
 	}
 
-	// The offset should be on the next line
-	offsetStr := strings.TrimSpace(lines[1])
+	offsetStr := fields[0]
 	offset, err := strconv.ParseInt(offsetStr, 10, 64)
 	if err != nil {
 		return 0, fmt.Errorf("invalid xref offset: %w", err)
